@@ -36,6 +36,7 @@ func runC06(r *Run) {
 	r.Rule("R3", "PATH.assert-in-every-decorator: in each eth-route decorator that calls GetMsgs, a comma-ok assertion to *MsgEthereumTx exists and next is unreachable from its failing edge")
 	r.Rule("R4", "PATH.reject: in RejectMessagesDecorator next is unreachable from the edge on which the assertion to *MsgEthereumTx succeeds, the assertion exists, it sits in a loop over the messages and its failing edge continues the scan (every message is examined)")
 	r.Rule("R5", "TABLE.wrapper-exhaustiveness: every sdk.Msg type in the app's import closure with a []*Any field (nested messages) is a case of checkDisabledMsgs' type switch or in the reasoned allow-list; the MsgExec case recurses with isAuthzInnerMsg=true and an incremented level; the level cap precedes the scan; disabled types are rejected in the MsgGrant and default cases; AnteHandle calls the scan before next")
+	r.Rule("R8", "TABLE.dispatchers-off-the-ante-route: the constructors that app.New hands the message service router to are exactly the tabled ones (authz keeper, configurator: bound to transactions; governance keeper, interchain-accounts host keeper: run message trees with no ante handler); while one of the latter is wired, both limiters list MsgTypeURL(&authz.MsgExec{}) so that exec-on-behalf cannot be delegated to a dispatcher's account")
 	r.Rule("R6", "TABLE.installed: setAnteHandler passes ante.NewAnteHandler(options) (wrapped by NewHaqqAnteHandlerDecorator, which calls the wrapped handler on every success path) to SetAnteHandler")
 
 	chains := anteChains(r)
@@ -148,6 +149,7 @@ func runC06(r *Run) {
 	}
 
 	// ---------- R2 ----------
+	disp := c06Dispatchers(P, r)
 	for _, cn := range []string{"newCosmosAnteHandler", "newLegacyCosmosAnteHandlerEip712"} {
 		c := chains[cn]
 		if c == nil {
@@ -178,6 +180,22 @@ func runC06(r *Run) {
 			okA = false
 		}
 		r.Check(okA, "R2", antePkg+"."+cn+"#authz-limiter-second", where, "AuthzLimiterDecorator(MsgEthereumTx, …) is second", "AuthzLimiterDecorator must be the second decorator and be configured with the MsgEthereumTx type URL"+detail+": chain is "+strings.Join(c.names(), " → "))
+		// R8: dispatchers that are handed the message router run message trees without the ante handler; as long
+		// as one of them is wired, "exec on my behalf" must not be grantable
+		if ai >= 0 && c.Decors[ai].Ctor != nil && len(disp) > 0 {
+			hasExec := false
+			backSlice(c.Decors[ai].Ctor.Common().Args...).Any(func(v ssa.Value) bool {
+				cc, ok := v.(*ssa.Call)
+				if ok && callInfo(cc).Name == "MsgTypeURL" && len(cc.Call.Args) == 1 {
+					t := stripValue(cc.Call.Args[0]).Type()
+					if namedName(t) == "MsgExec" && strings.HasSuffix(namedPkgPath(deref(t)), "x/authz") {
+						hasExec = true
+					}
+				}
+				return false
+			})
+			r.Check(hasExec, "R8", antePkg+"."+cn+"#exec-is-not-grantable", where, "the limiter bars grants of MsgExec", "the limiter of "+cn+" does not list MsgTypeURL(&authz.MsgExec{}) while "+strings.Join(disp, ", ")+" dispatch message trees through the message router without the ante handler: an account grants such a dispatcher's account GenericAuthorization(MsgExec); the dispatcher then runs MsgExec{dispatcher, [MsgExec{granter, [MsgEthereumTx signed by granter]}]} — authz accepts the innermost message implicitly (granter == grantee) and the Ethereum message executes with no fee deducted, no nonce rule, and a gas refund paid out of the fee collector")
+		}
 	}
 	// the three chains are the only chains, and each constructor returns its chain itself (no selecting wrapper
 	// that substitutes a shorter chain for some contexts — block height, mode — in front of it)
@@ -787,3 +805,62 @@ func c06Authz(r *Run) {
 }
 
 func (q PathQuery) found() bool { return q.Search() != nil }
+
+// c06Dispatchers lists the constructors in package app that receive the message service router and dispatch
+// message trees outside transactions; with r != nil it also checks the receivers against the table.
+func c06Dispatchers(P *Prog, r *Run) []string {
+	table := map[string]string{
+		"NewKeeper@x/authz/keeper":        "bound",      // runs inside a transaction: the limiter has scanned the tree
+		"NewConfigurator@types/module":    "bound",      // service registration
+		"NewKeeper@x/gov/keeper":          "dispatcher", // proposal messages, signer = gov module account
+		"NewKeeper@host/keeper":           "dispatcher", // ICS-27 packets, signer = interchain account
+		"NewMsgServerImpl@x/authz/keeper": "bound",
+	}
+	var out []string
+	seen := map[string]bool{}
+	for _, fn := range P.Funcs {
+		if fnPkgPath(fn) != "app" && !strings.HasSuffix(fnPkgPath(fn), "/app") {
+			continue
+		}
+		if !isHaqqPath(fnPkgPath(fn)) || isTestSupport(P, fn) || fn.Synthetic != "" {
+			continue
+		}
+		eachCall(fn, func(ci CallInfo) {
+			if ci.Name == "MsgServiceRouter" {
+				return
+			}
+			gets := false
+			for _, a := range ci.Instr.Common().Args {
+				if c, ok := stripValue(a).(*ssa.Call); ok && callInfo(c).Name == "MsgServiceRouter" {
+					gets = true
+				}
+			}
+			if !gets {
+				return
+			}
+			kind := ""
+			for k, v := range table {
+				parts := strings.SplitN(k, "@", 2)
+				if ci.Name == parts[0] && strings.HasSuffix(ci.PkgPath, parts[1]) {
+					kind = v
+				}
+			}
+			id := ci.Name + "@" + ci.PkgPath
+			if kind == "" {
+				if r != nil {
+					r.Bad("R8", "app#router-receiver:"+id, P.Pos(instrPos(ci.Instr)), id+" receives the message service router but is not in the table of C06 R8: whatever it dispatches runs without the ante handler's route rules — confirm what signer it requires and table it")
+				}
+				return
+			}
+			if r != nil && !seen[id] {
+				r.OK("R8", "app#router-receiver:"+id, P.Pos(instrPos(ci.Instr)), id+" is tabled as "+kind)
+			}
+			if kind == "dispatcher" && !seen[id] {
+				out = append(out, id)
+			}
+			seen[id] = true
+		})
+	}
+	sort.Strings(out)
+	return out
+}
